@@ -9,6 +9,7 @@
 mod docs;
 mod r#gen;
 mod oracle;
+mod typed;
 mod wire;
 
 use anda_db_schema::{Document, DocumentOwned, FieldEntry, FieldType, FieldValue, FieldValueBudget, IndexedFieldValues, Schema};
@@ -53,6 +54,21 @@ fn hint_of(v: &FieldValue) -> String {
             }
             FieldValue::Array(xs) => xs.iter().for_each(|x| walk(x, out)),
             FieldValue::Map(m) => m.values().for_each(|x| walk(x, out)),
+            // a JSON number becomes an F64 once the stored form is read back without a schema
+            FieldValue::Json(j) => walk_json(j, out),
+            _ => {}
+        }
+    }
+    fn walk_json(j: &anda_db_schema::Json, out: &mut Vec<u64>) {
+        match j {
+            anda_db_schema::Json::Number(n) if n.is_f64() => {
+                let f = n.as_f64().unwrap();
+                if oracle::json_clause(f) && !out.contains(&f.to_bits()) {
+                    out.push(f.to_bits());
+                }
+            }
+            anda_db_schema::Json::Array(xs) => xs.iter().for_each(|x| walk_json(x, out)),
+            anda_db_schema::Json::Object(m) => m.values().for_each(|x| walk_json(x, out)),
             _ => {}
         }
     }
@@ -235,8 +251,25 @@ fn eval_line_inner(l: &str) -> Option<Eval> {
     Some(ev)
 }
 
-fn eval_line(l: &str) -> Eval {
-    match catch_unwind(AssertUnwindSafe(|| eval_line_inner(l))) {
+const STATEFUL: &[&str] = &["schema", "upgrade", "put", "typed", "get"];
+
+fn eval_doc_line(l: &str, st: &mut docs::State) -> Option<Eval> {
+    let o = st.step(l)?;
+    let op = l.split(' ').next().unwrap_or("");
+    let mut hits = vec![format!("op:{op}")];
+    hits.extend(o.hits);
+    Some(Eval {
+        impl_out: o.text,
+        findings: o.failures.into_iter().map(|(key, what, expected, observed)| Finding { oracle: true, key, what, expected, observed }).collect(),
+        nontrivial: o.nontrivial,
+        hits,
+    })
+}
+
+fn eval_line(l: &str, st: &mut docs::State) -> Eval {
+    let op = l.split(' ').next().unwrap_or("");
+    let doc_level = STATEFUL.contains(&op) || op == "ext" || op == "compat";
+    match catch_unwind(AssertUnwindSafe(|| if doc_level { eval_doc_line(l, st) } else { eval_line_inner(l) })) {
         Ok(Some(ev)) => ev,
         Ok(None) => Eval { impl_out: "bad-op".into(), findings: vec![], nontrivial: false, hits: vec!["bad-op".into()] },
         Err(_) => Eval {
@@ -250,7 +283,11 @@ fn eval_line(l: &str) -> Eval {
 
 /// All findings of one line (oracle + correspondence).
 fn check_line(l: &str, model: &mut Option<ModelProc>) -> (Eval, Option<String>) {
-    let mut ev = eval_line(l);
+    check_line_in(l, model, &mut docs::State::default())
+}
+
+fn check_line_in(l: &str, model: &mut Option<ModelProc>, st: &mut docs::State) -> (Eval, Option<String>) {
+    let mut ev = eval_line(l, st);
     let mut model_out = None;
     if let Some(m) = model.as_mut() {
         let out = m.ask(l);
@@ -266,6 +303,72 @@ fn check_line(l: &str, model: &mut Option<ModelProc>) -> (Eval, Option<String>) 
         model_out = Some(out);
     }
     (ev, model_out)
+}
+
+/// Re-prints an op with every map in `BTreeMap` order (the order the model is promised); ops that
+/// do not parse are passed through untouched (both sides then answer `bad-op`).
+fn canon_line(l: &str) -> String {
+    fn inner(l: &str) -> Option<String> {
+        let mut ts = Toks::new(l);
+        let op = ts.next()?;
+        let hint = ts.next()?;
+        let mut o: Vec<String> = vec![op.into(), hint.into()];
+        match op {
+            "val" | "norm" | "prune" | "rt" | "load" | "set" => {
+                o.push(show_type(&parse_type(&mut ts)?));
+                o.push(show_value(&parse_value(&mut ts)?));
+            }
+            "cx" => {
+                for _ in 0..4 {
+                    o.push(ts.next()?.into());
+                }
+                o.push(show_value(&parse_value(&mut ts)?));
+            }
+            "ext" => {
+                o.push(show_type(&parse_type(&mut ts)?));
+                o.push(wire::show_cbor(&wire::parse_cbor(&mut ts)?).ok()?);
+            }
+            "compat" => {
+                o.push(show_type(&parse_type(&mut ts)?));
+                o.push(show_type(&parse_type(&mut ts)?));
+            }
+            "schema" | "upgrade" => {
+                o.push(ts.next()?.into());
+                let n: usize = ts.next()?.parse().ok()?;
+                o.push(n.to_string());
+                for _ in 0..n {
+                    o.push(ts.next()?.into());
+                    o.push(ts.next()?.into());
+                    o.push(show_type(&parse_type(&mut ts)?));
+                }
+            }
+            "put" => {
+                let n: usize = ts.next()?.parse().ok()?;
+                o.push(n.to_string());
+                for _ in 0..n {
+                    o.push(ts.next()?.into());
+                    o.push(show_value(&parse_value(&mut ts)?));
+                }
+            }
+            "typed" => {
+                let n: usize = ts.next()?.parse().ok()?;
+                o.push(n.to_string());
+                for _ in 0..n {
+                    o.push(ts.next()?.into());
+                    o.push(wire::show_cbor(&wire::parse_cbor(&mut ts)?).ok()?);
+                }
+            }
+            _ => return None,
+        }
+        ts.done().then(|| o.join(" "))
+    }
+    inner(l).unwrap_or_else(|| l.to_string())
+}
+
+fn reset_model(model: &mut Option<ModelProc>) {
+    if let Some(m) = model.as_mut() {
+        let _ = m.ask("reset");
+    }
 }
 
 // ------------------------------------------------------------------------------------ shrinking
@@ -343,7 +446,7 @@ fn shrink_candidates(ft: &FieldType, v: &FieldValue) -> Vec<(FieldType, FieldVal
 fn shrink_line(l: &str, f: &Finding, model: &mut Option<ModelProc>) -> String {
     let mut ts = Toks::new(l);
     let (Some(op), Some(_)) = (ts.next(), ts.next()) else { return l.to_string() };
-    if op == "cx" {
+    if op == "cx" || op == "ext" || op == "compat" || STATEFUL.contains(&op) {
         return l.to_string();
     }
     let (Some(mut ft), Some(mut v)) = (parse_type(&mut ts), parse_value(&mut ts)) else { return l.to_string() };
@@ -369,10 +472,250 @@ fn shrink_line(l: &str, f: &Finding, model: &mut Option<ModelProc>) -> String {
 
 // ----------------------------------------------------------------------------------- generation
 
+/// A type tweak for upgrade / compat cases: (new type, did the generator intend it to be permitted).
+fn evolve_type(r: &mut Rng, t: &FieldType) -> FieldType {
+    use std::collections::BTreeMap;
+    match t {
+        FieldType::Option(inner) if r.chance(2, 3) => FieldType::Option(Box::new(evolve_type(r, inner))),
+        FieldType::Array(ts) if !ts.is_empty() && r.chance(2, 3) => {
+            let mut ts = ts.clone();
+            match r.below(5) {
+                0 if ts.len() >= 2 => {
+                    ts.pop();
+                }
+                1 if ts.len() >= 2 => ts.push(FieldType::Bool),
+                _ => {
+                    let i = r.usize(ts.len());
+                    ts[i] = evolve_type(r, &ts[i]);
+                }
+            }
+            FieldType::Array(ts)
+        }
+        FieldType::Map(m) if !m.is_empty() => {
+            let mut m: BTreeMap<_, _> = m.clone();
+            if let Some((w, inner)) = r#gen::is_wildcard(&m) {
+                let (w, inner) = (w.clone(), inner.clone());
+                return match r.below(4) {
+                    0 => FieldType::Map(BTreeMap::from([(r#gen::wildcard(r.below(3)), inner)])),
+                    1 => FieldType::Map(BTreeMap::from([(r#gen::gen_key(r, 0), inner)])),
+                    _ => FieldType::Map(BTreeMap::from([(w, evolve_type(r, &inner))])),
+                };
+            }
+            match r.below(6) {
+                0 | 1 => {
+                    // gain an optional key
+                    let kv = r.below(3);
+                    m.entry(r#gen::gen_key(r, kv)).or_insert_with(|| FieldType::Option(Box::new(r#gen::gen_scalar_type(r))));
+                }
+                2 => {
+                    // gain a required key
+                    let kv = r.below(3);
+                    m.entry(r#gen::gen_key(r, kv)).or_insert_with(|| r#gen::gen_scalar_type(r));
+                }
+                3 | 4 => {
+                    // lose a key
+                    if let Some(k) = m.keys().nth(r.usize(m.len())).cloned() {
+                        m.remove(&k);
+                    }
+                }
+                _ => {
+                    if let Some(k) = m.keys().nth(r.usize(m.len())).cloned() {
+                        let nt = evolve_type(r, &m[&k]);
+                        m.insert(k, nt);
+                    }
+                }
+            }
+            FieldType::Map(m)
+        }
+        _ => match r.below(4) {
+            0 => r#gen::gen_scalar_type(r),
+            1 => FieldType::Option(Box::new(t.clone())),
+            _ => t.clone(),
+        },
+    }
+}
+
+/// Field types for multi-field documents: shallow, with a bias towards nested structs (explicitly
+/// keyed maps with text keys), the shape the derive macro emits.
+fn gen_field_type(r: &mut Rng) -> FieldType {
+    use std::collections::BTreeMap;
+    match r.below(10) {
+        0..=2 => {
+            let n = 1 + r.below(3);
+            let mut m = BTreeMap::new();
+            for _ in 0..n {
+                let k = anda_db_schema::FieldKey::Text((*r.pick(&["x", "y", "z", "w", "*"])).to_string());
+                let t = if r.chance(1, 2) { FieldType::Option(Box::new(r#gen::gen_type(r, 1))) } else { r#gen::gen_type(r, 1) };
+                m.insert(k, t);
+            }
+            let t = FieldType::Map(m);
+            if r.chance(1, 2) { FieldType::Option(Box::new(t)) } else { t }
+        }
+        3..=5 => FieldType::Option(Box::new(r#gen::gen_type(r, 2))),
+        _ => r#gen::gen_type(r, 2),
+    }
+}
+
+fn fields_line(op: &str, ver: u64, fields: &[(String, bool, FieldType)]) -> String {
+    let mut o = vec![op.to_string(), "-".into(), ver.to_string(), fields.len().to_string()];
+    for (n, u, t) in fields {
+        o.push(n.clone());
+        o.push(if *u { "u1" } else { "u0" }.into());
+        o.push(show_type(t));
+    }
+    o.join(" ")
+}
+
+fn gen_chain(r: &mut Rng) -> Vec<String> {
+    const NAMES: &[&str] = &["a", "b", "c", "d", "e", "f_1"];
+    let mut ops = Vec::new();
+    let mut ver = 1 + r.below(3);
+    let mut cur: Vec<(String, bool, FieldType)> = Vec::new();
+    let mut names: Vec<&str> = NAMES.to_vec();
+    r.shuffle(&mut names);
+    for n in names.iter().take(2 + r.usize(3)) {
+        cur.push((n.to_string(), r.chance(1, 6), gen_field_type(r)));
+    }
+    ops.push(fields_line("schema", ver, &cur));
+    let mut removed: Vec<(String, bool, FieldType)> = Vec::new();
+    let mut docs = 0usize;
+    let steps = 4 + r.below(6);
+    for _ in 0..steps {
+        match r.below(10) {
+            0..=3 => {
+                // field by field
+                let mut parts = Vec::new();
+                let mut all = Vec::new();
+                let bad = r.chance(1, 6);
+                let bad_i = r.usize(cur.len().max(1));
+                for (i, (n, _, t)) in cur.iter().enumerate() {
+                    if matches!(t, FieldType::Option(_)) && r.chance(1, 3) {
+                        continue;
+                    }
+                    let mut v = r#gen::gen_valid(r, t, 2);
+                    if bad && i == bad_i {
+                        v = r#gen::mutate(r, t, &v);
+                    }
+                    parts.push(format!("{n} {}", show_value(&v)));
+                    all.push(v);
+                }
+                let hint = hint_of(&FieldValue::Array(all));
+                ops.push(format!("put {hint} {} {}", parts.len(), parts.join(" ")));
+                if !bad {
+                    docs += 1;
+                }
+            }
+            4 => {
+                // from a typed value
+                let mut parts = vec!["_id ci1".to_string()];
+                let bad = r.chance(1, 6);
+                let bad_i = r.usize(cur.len().max(1));
+                for (i, (n, _, t)) in cur.iter().enumerate() {
+                    if matches!(t, FieldType::Option(_)) && r.chance(1, 3) {
+                        continue;
+                    }
+                    let v = r#gen::gen_valid(r, t, 0);
+                    let mut c = docs::to_cbor(&v, r);
+                    if bad && i == bad_i {
+                        c = docs::mutate_cbor(&c, r);
+                    }
+                    if let Ok(text) = wire::show_cbor(&c) {
+                        parts.push(format!("{n} {text}"));
+                    }
+                }
+                if r.chance(1, 10) {
+                    parts.push("zz ci1".into());
+                }
+                ops.push(format!("typed - {} {}", parts.len(), parts.join(" ")));
+                if !bad {
+                    docs += 1;
+                }
+            }
+            5..=8 => {
+                let mut next = cur.clone();
+                let nver = if r.chance(1, 10) { ver } else { ver + 1 + r.below(2) };
+                for _ in 0..1 + r.below(2) {
+                    match r.below(8) {
+                        0 | 1 if next.len() > 1 => {
+                            let i = r.usize(next.len());
+                            removed.push(next.remove(i));
+                        }
+                        2 | 3 => {
+                            // add: a removed name again (same or another type) or a fresh one
+                            let (n, t) = if !removed.is_empty() && r.chance(2, 3) {
+                                let (n, _, t) = removed.remove(r.usize(removed.len()));
+                                (n, if r.chance(1, 2) { t } else { gen_field_type(r) })
+                            } else {
+                                ((*r.pick(NAMES)).to_string(), gen_field_type(r))
+                            };
+                            if !next.iter().any(|f| f.0 == n) {
+                                let t = if matches!(t, FieldType::Option(_)) || r.chance(1, 5) { t } else { FieldType::Option(Box::new(t)) };
+                                next.push((n, false, t));
+                            }
+                        }
+                        4 | 5 | 6 => {
+                            let i = r.usize(next.len());
+                            next[i].2 = evolve_type(r, &next[i].2.clone());
+                        }
+                        _ => {
+                            let i = r.usize(next.len());
+                            next[i].1 = !next[i].1;
+                        }
+                    }
+                }
+                ops.push(fields_line("upgrade", nver, &next));
+                // the generator's own bookkeeping follows the oracle's notion of "permitted"
+                let permitted = nver > ver
+                    && next.iter().all(|(n, u, t)| match cur.iter().find(|f| &f.0 == n) {
+                        Some((_, ou, ot)) => docs::permitted_change(t, ot) && u == ou,
+                        None => matches!(t, FieldType::Option(_)),
+                    });
+                if permitted {
+                    cur = next;
+                    ver = nver;
+                } else {
+                    removed.clear();
+                }
+            }
+            _ => {
+                if docs > 0 {
+                    ops.push(format!("get - {}", r.usize(docs)));
+                }
+            }
+        }
+    }
+    for k in 0..docs {
+        ops.push(format!("get - {k}"));
+    }
+    ops
+}
+
 fn gen_case(seed: u64, i: u64) -> Vec<String> {
     let mut r = Rng::for_case(seed, i);
     let r = &mut r;
     let mut ops = Vec::new();
+    match i % 10 {
+        7 | 8 => return gen_chain(r),
+        9 => {
+            // typed-value path of one field, and the upgrade compatibility relation
+            let depth = 1 + r.below(4) as u32;
+            let ft = r#gen::gen_type(r, depth);
+            let valid = r#gen::gen_valid(r, &ft, 0);
+            let v = if r.chance(1, 3) { r#gen::mutate(r, &ft, &valid) } else { valid };
+            let mut c = docs::to_cbor(&v, r);
+            if r.chance(1, 4) {
+                c = docs::mutate_cbor(&c, r);
+            }
+            if let Ok(text) = wire::show_cbor(&c) {
+                ops.push(format!("ext - {} {text}", show_type(&ft)));
+            }
+            let old = if r.chance(1, 2) { gen_field_type(r) } else { ft };
+            let new = evolve_type(r, &old);
+            ops.push(format!("compat - {} {}", show_type(&new), show_type(&old)));
+            return ops;
+        }
+        _ => {}
+    }
     if i % 97 == 13 {
         let (ft, v) = r#gen::budget_case(r);
         ops.push(line("val", &ft, &v));
@@ -405,9 +748,23 @@ fn gen_case(seed: u64, i: u64) -> Vec<String> {
 
 // ----------------------------------------------------------------------------------------- main
 
+/// Does the case (run from a fresh state) still show the finding?
+fn case_shows(ops: &[String], f: &Finding, model: &mut Option<ModelProc>) -> bool {
+    let mut st = docs::State::default();
+    reset_model(model);
+    ops.iter().any(|l| {
+        let (ev, _) = check_line_in(l, model, &mut st);
+        ev.findings.iter().any(|g| g.oracle == f.oracle && g.key == f.key)
+    })
+}
+
 fn run_case(name: &str, ops: &[String], model: &mut Option<ModelProc>, rep: &mut Report, reported: &mut std::collections::BTreeSet<String>) {
-    for l in ops {
-        let (ev, model_out) = check_line(l, model);
+    let ops: Vec<String> = ops.iter().map(|l| canon_line(l)).collect();
+    let ops = &ops[..];
+    let mut st = docs::State::default();
+    reset_model(model);
+    for (li, l) in ops.iter().enumerate() {
+        let (ev, model_out) = check_line_in(l, model, &mut st);
         if model_out.is_some() {
             rep.model_compared += 1;
         }
@@ -429,13 +786,37 @@ fn run_case(name: &str, ops: &[String], model: &mut Option<ModelProc>, rep: &mut
             if !reported.insert(format!("{}{}", f.oracle, f.key)) {
                 continue;
             }
-            let small = shrink_line(l, f, model);
-            let (ev2, _) = check_line(&small, model);
-            let g = ev2.findings.iter().find(|g| g.oracle == f.oracle && g.key == f.key).unwrap_or(f);
-            if f.oracle {
-                rep.oracle_failure(&g.key, &g.what, &[small.clone()], &g.expected, &g.observed);
+            let op = l.split(' ').next().unwrap_or("");
+            let (small_ops, g): (Vec<String>, Finding) = if STATEFUL.contains(&op) {
+                // history matters: delta-debug the op list up to and including this line
+                let prefix: Vec<String> = ops[..=li].to_vec();
+                let small = vh_common::shrink(prefix, |c| case_shows(c, f, model), 300);
+                let mut st2 = docs::State::default();
+                reset_model(model);
+                let mut g = f.clone();
+                for l2 in &small {
+                    let (ev2, _) = check_line_in(l2, model, &mut st2);
+                    if let Some(x) = ev2.findings.iter().find(|g| g.oracle == f.oracle && g.key == f.key) {
+                        g = x.clone();
+                    }
+                }
+                // leave the model in the state of the running case again
+                let mut st3 = docs::State::default();
+                reset_model(model);
+                for l2 in &ops[..=li] {
+                    let _ = check_line_in(l2, model, &mut st3);
+                }
+                (small, g)
             } else {
-                rep.disagreement(&g.what, &[small.clone()], &g.expected, &g.observed);
+                let small = shrink_line(l, f, model);
+                let (ev2, _) = check_line(&small, model);
+                let g = ev2.findings.iter().find(|g| g.oracle == f.oracle && g.key == f.key).unwrap_or(f).clone();
+                (vec![small], g)
+            };
+            if f.oracle {
+                rep.oracle_failure(&g.key, &g.what, &small_ops, &g.expected, &g.observed);
+            } else {
+                rep.disagreement(&g.what, &small_ops, &g.expected, &g.observed);
             }
         }
     }
@@ -476,6 +857,7 @@ fn main() {
             break;
         }
     }
+    typed::run(args.seed, args.budget(1_500, 60_000), &mut rep);
     float_laws(&args, &mut rep);
     rep.write(&args);
 }
@@ -517,6 +899,32 @@ fn float_laws(args: &Args, rep: &mut Report) {
         if !ok {
             bad += 1;
         }
+    }
+    // The JSON (human-readable) read-back of a stored f32, as serde_json prints it, against
+    // `FieldType::F32.validate`: measured, outside the modelled (CBOR) storage path.
+    let (mut printers_differ, mut json_rejected, mut first) = (0u64, 0u64, None);
+    for i in 0..n {
+        let x = if (i as usize) < r#gen::F32_EDGES.len() { r#gen::F32_EDGES[i as usize] } else if i % 4 == 0 { ((r.below(1 << 22) as f32) / 16.0).to_bits() } else { r.next_u64() as u32 };
+        let f = f32::from_bits(x);
+        if !f.is_finite() {
+            continue;
+        }
+        let ryu = serde_json::to_string(&f).unwrap();
+        let p: f64 = ryu.parse().unwrap();
+        if format!("{f}").parse::<f64>().unwrap() != p {
+            printers_differ += 1;
+        }
+        if FieldType::F32.validate(&FieldValue::F64(p)).is_err() {
+            json_rejected += 1;
+            if first.is_none() {
+                first = Some(format!("f32 bits {x:08x} = {f:?}: serde_json prints {ryu}, whose f64 parse {:016x} is not accepted for an F32 field", p.to_bits()));
+            }
+        }
+    }
+    rep.measured.insert("json_f32_printers_differ".into(), json!(printers_differ));
+    rep.measured.insert("json_f32_readback_rejected".into(), json!(json_rejected));
+    if let Some(f) = first {
+        rep.measured.insert("json_f32_readback_rejected_example".into(), json!(f));
     }
     rep.measured.insert("float_laws_checked".into(), json!(checked));
     rep.measured.insert("float_laws_violated".into(), json!(bad));
